@@ -886,6 +886,8 @@ func (c *Context) Log10(d, x *Decimal) (Condition, error) {
 		return 0, err
 	}
 	res |= qr
+	// nc has BaseContext's exponent range; apply the caller's.
+	res |= c.round(d, d)
 	return c.goError(res)
 }
 
